@@ -80,7 +80,9 @@ Start(name) ==
 Init == /\ \E n \in Models : m = Start(n)
         /\ hist = <<>> /\ ver = 0 /\ nm = <<>>
 
-Linear1 == m.ode /\ m.per = 0 /\ m.tr = 0 /\ ~m.lag /\ m.elim = "FO"
+\* linear, at most two compartments (one compartment with or without depot, or central + one peripheral):
+\* the systems whose eigenvalues the driver can make rational through the probe values
+Linear1 == m.ode /\ m.tr = 0 /\ ~m.lag /\ m.elim = "FO" /\ (m.per = 0 \/ (m.per = 1 /\ ~m.abs))
 PK == m.model # "linear"
 
 \* enabledness = documented preconditions + what the corpus offers; the "never run" pairs and the known
